@@ -254,16 +254,26 @@ class BaseIsAsyncFunction:
 
 
 def _native_parse(code):
-    from src.analyzers.rust_base import RustBaseAnalyzer
-    return RustBaseAnalyzer().parse_rust(code)
+    """The tree-sitter-rust parse tree itself (NOT through the function under proof)."""
+    import tree_sitter_rust as tsrust
+    from tree_sitter import Language, Parser
+    return Parser(Language(tsrust.language())).parse(bytes(code, "utf8")).root_node
 
 
-rust_root = uf("rust_root", [Str], TSNode, concrete=_native_parse)   # the parse tree of a source text (parser trusted)
+# the root node of the tree-sitter-rust parse of a source text (the parser is trusted; error recovery included: a tree
+# with ERROR / MISSING nodes is still THE parse tree -- every clause of C17 is decided modulo this tree)
+rust_root = uf("rust_root", [Str], TSNode, concrete=_native_parse)
+
+# The external parser objects (tree_sitter_rust.language(), Language, Parser, parser.parse(bytes), tree.root_node) are
+# modelled ONCE, language-aware, in contracts/c12_sites.py: Parser(rust language).parse(bytes(text, "utf8")).root_node is
+# uf.tree_sitter_root(the_rust_parser, text) == uf.rust_root(text).
+from contracts import c12_sites as _c12_sites  # noqa: E402,F401  (registers those externals)
 
 
-@contract(B + "RustBaseAnalyzer.parse_rust", props=["C17", "C02"], types=dict(self=BaseT, code=Str), returns=Opt(TSNode),
-          assumed="tree-sitter parser (external): returns the root node of the parse tree of `code` (a function of the "
-                  "text), or None when tree-sitter is unavailable; every C17 clause is decided modulo the parse tree")
+@contract(B + "RustBaseAnalyzer.parse_rust", props=["C17", "C02"], types=dict(self=BaseT, code=Str), returns=Opt(TSNode))
 class ParseRust:
+    """Verified up to the external parser call: whenever tree-sitter is available the result IS the parser's root node
+    for exactly this text -- whatever the tree looks like (ERROR / MISSING nodes, has_error) -- and nothing else."""
+
     def value(self, code):
         return rust_root(code)
